@@ -122,6 +122,16 @@ type sched struct {
 	next   int
 	Trace  []string
 	spin   bool // real-parallel mode: spin instead of yielding
+	off    bool // disarmed: points are ignored (prefill / unwinding phases)
+}
+
+func (s *sched) arm(on bool) {
+	if s == nil {
+		return
+	}
+	s.mu.Lock()
+	s.off = !on
+	s.mu.Unlock()
 }
 
 func newSched(yields []uint8) *sched { return &sched{yields: yields} }
@@ -131,6 +141,10 @@ func (s *sched) Point(name string) {
 		return
 	}
 	s.mu.Lock()
+	if s.off {
+		s.mu.Unlock()
+		return
+	}
 	n := 0
 	if s.next < len(s.yields) {
 		n = int(s.yields[s.next])
